@@ -43,5 +43,6 @@ res['demo_out_without'] = out[-600:]
 clean()
 for d in glob.glob('/tmp/' + '-_' + wt.strip('/').replace('/', '_') + '_*'):
     shutil.rmtree(d, ignore_errors=True)
-json.dump(res, open(os.path.join('/tmp/mut/confirm', os.path.basename(os.path.dirname(sd.rstrip('/'))) + '-' + os.path.basename(sd.rstrip('/')) + '.json'), 'w'), indent=1)
+tag = 'r2' if '/out2/' in sd else ''
+json.dump(res, open(os.path.join('/tmp/mut/confirm', os.path.basename(os.path.dirname(sd.rstrip('/'))) + '-' + tag + os.path.basename(sd.rstrip('/')) + '.json'), 'w'), indent=1)
 print(json.dumps({k: v for k, v in res.items() if not k.startswith('demo_out')}))
